@@ -1,12 +1,13 @@
 CONSTANTS
   MaxLen = 3
   NV = 3
-  NP = 2
+  NP = 1
   Kinds = {"const", "mov", "inc", "add", "out", "jnz", "jmp"}
   Rule = "spec"
   Filter = FALSE
-  RandLen = 0
-  RandCount = 0
+  RandLens = {5, 6}
+  RandKinds = {"const", "mov", "inc", "add", "out", "jnz", "jmp"}
+  RandCount = 20000
 SPECIFICATION Spec
 INVARIANT LivenessIsPathLiveness
 CHECK_DEADLOCK FALSE
